@@ -196,6 +196,71 @@ func genHdrs(r *core.Rand) string {
 	return strings.Join(out, ";")
 }
 
+// setHdrTok replaces / adds the entry of key k in a header-map token.
+func setHdrTok(hdrs, k string, vs ...string) string {
+	var out []string
+	if hdrs != "_" {
+		for _, e := range strings.Split(hdrs, ";") {
+			if !strings.HasPrefix(e, core.HexS(k)+":") {
+				out = append(out, e)
+			}
+		}
+	}
+	v := "_"
+	if len(vs) > 0 {
+		hv := make([]string, len(vs))
+		for i := range vs {
+			hv[i] = core.HexS(vs[i])
+		}
+		v = strings.Join(hv, ",")
+	}
+	return strings.Join(append(out, core.HexS(k)+":"+v), ";")
+}
+
+// genFieldClass puts the message on a boundary between net/http's struct fields (Host, ContentLength,
+// TransferEncoding) and the same names in the header map: what a message parsed from the wire looks
+// like (explicit "Content-Length: 0", Content-Length line kept beside the field), a name only in the
+// map or only in the field, and the disagreements a modifier leaves behind (the classes of
+// msggen.Disagree: stale length, stale host, stale / absent transfer encoding).
+func genFieldClass(r *core.Rand, kind byte, hdrs, host, cl, te string) (string, string, string, string) {
+	c := r.Intn(12)
+	core.Count(fmt.Sprintf("gen:field-class-%d", c))
+	switch c {
+	case 0, 1: // explicit zero length, as read from the wire: bodyless POST, 302, empty 200
+		return setHdrTok(hdrs, "Content-Length", "0"), host, "0", r.Pick("n", "n", "e")
+	case 2: // zero / unknown length and no Content-Length anywhere
+		return hdrs, host, r.Pick("0", "-1"), te
+	case 3: // length line kept beside an agreeing field (parsed from the wire)
+		n := r.Pick("1", "5", "1048576")
+		return setHdrTok(hdrs, "Content-Length", n), host, n, "n"
+	case 4: // Host only in the map
+		h := "-"
+		return setHdrTok(hdrs, "Host", r.Pick("map-only.example", "z", "")), h, cl, te
+	case 5: // Host only in the field (responses: nowhere)
+		if kind == 'q' {
+			host = core.HexS(r.Pick("field-only.example", "f:81"))
+		}
+		return hdrs, host, cl, te
+	case 6: // Transfer-Encoding in the map, field nil (te-absent-stale)
+		return setHdrTok(hdrs, "Transfer-Encoding", strings.Split(r.Pick("chunked", "gzip,chunked", "identity"), ",")...), host, cl, "n"
+	case 7: // stale length: field > 0, map says something else (cl-stale / body.Modifier's leftovers)
+		return setHdrTok(hdrs, "Content-Length", r.Pick("0", "1", "26", "999999")), host, r.Pick("5", "27", "1048576"), te
+	case 8: // stale host
+		if kind == 'q' {
+			host = core.HexS("new.example")
+		}
+		return setHdrTok(hdrs, "Host", r.Pick("stale.example", "other.test:1")), host, cl, te
+	case 9: // stale transfer encoding: field chunked, map something else
+		return setHdrTok(hdrs, "Transfer-Encoding", r.Pick("identity", "gzip", "chunked, chunked")), host, r.Pick("-1", "0"), core.HexS("chunked")
+	case 10: // no length in the field, a stale one in the map (cl-absent-stale): a contradiction, not judged
+		return setHdrTok(hdrs, "Content-Length", r.Pick("26", "1", "4096", "00")), host, r.Pick("-1", "0"), r.Pick("n", core.HexS("chunked"))
+	default: // all three in the map of a message whose fields say nothing
+		hdrs = setHdrTok(hdrs, "Host", "h.example")
+		hdrs = setHdrTok(hdrs, "Content-Length", "0")
+		return setHdrTok(hdrs, "Transfer-Encoding", "chunked"), "-", "0", "n"
+	}
+}
+
 func genMsg(r *core.Rand, tier string, kind byte, id string) string {
 	api := "0"
 	if r.Chance(1, 5) {
@@ -223,13 +288,17 @@ func genMsg(r *core.Rand, tier string, kind byte, id string) string {
 	}
 	cl := []string{"-1", "0", "0", "1", "5", "1048576", "9223372036854775807"}[r.Intn(7)]
 	te := r.Pick("n", "n", "n", "e", core.HexS("chunked"), core.HexS("gzip")+","+core.HexS("chunked"))
+	hdrs := genHdrs(r)
+	if r.Chance(1, 3) {
+		hdrs, host, cl, te = genFieldClass(r, kind, hdrs, host, cl, te)
+	}
 	reads := ""
 	if gatedReads {
 		reads = genReadsGated(r)
 	} else {
 		reads = genReads(r, tier)
 	}
-	return strings.Join([]string{string(kind), core.HexS(id), api, pseudo, host, cl, te, genHdrs(r), reads}, "/")
+	return strings.Join([]string{string(kind), core.HexS(id), api, pseudo, host, cl, te, hdrs, reads}, "/")
 }
 
 // genReadsGated: few reads (every frame of a controlled schedule costs a scheduling round), sizes on
